@@ -13,8 +13,8 @@
 
    Objects are ids (`oid`); `docstring`, `parent` and the module's `__docformat__` are fixed
    configuration (none of the modelled functions writes them); `model.get_docstring` is restricted to
-   the object's own docstring (inheritance is C05's business) but the `source` argument is kept
-   everywhere it exists in the Python code.  System.parse_errors is keyed by (section, fullName); the
+   a given list of documentation sources per object (`inherits`: which objects those are is C05's business);
+   the `source` argument is kept everywhere it exists in the Python code.  System.parse_errors is keyed by (section, fullName); the
    model keys it by (section, oid), i.e. it assumes fullName is injective on the objects involved. *)
 From Coq Require Import ZArith NArith List Bool.
 From PydoctorVerif Require Import Base.Sexp.
@@ -89,7 +89,8 @@ Record config : Type := {
   toc_enabled : bool;                      (* system.options.sidebartocdepth > 0 *)
   docstring : oid -> option text;          (* obj.docstring *)
   parent : oid -> option oid;              (* obj.parent *)
-  mod_fmt : oid -> option N                (* obj.module.docformat (None / '' = not set) *)
+  mod_fmt : oid -> option N;               (* obj.module.docformat (None / '' = not set) *)
+  inherits : oid -> list oid               (* obj.docsources() after obj itself: the same name in the base classes, MRO order *)
 }.
 
 Definition report : Type := (oid * N * perr)%type.     (* who, section, error *)
@@ -185,17 +186,30 @@ Definition parse_docstring (O : oracles) (c : config) (st : state)
     end in
   (parsed_doc, match errs with [] => st | _ :: _ => report_errors st source errs section end).
 
-(* ---- model.get_docstring(obj), own docstring only *)
-Definition get_docstring (c : config) (o : oid) : option text * option oid :=
-  match docstring c o with
-  | Some [] => (None, Some o)             (* empty docstring: undocumented, but a source *)
-  | Some t => (Some t, Some o)
-  | None => (None, None)
+(* ---- model.get_docstring(obj):
+        for source in obj.docsources():
+            doc = source.docstring
+            if doc: return doc, source
+            if doc is not None: return None, source      # empty docstring: undocumented, but a source
+        return None, None *)
+Fixpoint get_docstring_from (c : config) (sources : list oid) : option text * option oid :=
+  match sources with
+  | [] => (None, None)
+  | s :: rest =>
+    match docstring c s with
+    | Some [] => (None, Some s)
+    | Some t => (Some t, Some s)
+    | None => get_docstring_from c rest
+    end
   end.
 
-(* ---- ensure_parsed_docstring(obj) -> source | None *)
-Definition ensure_parsed_docstring (O : oracles) (c : config) (st : state) (o : oid) : option oid * state :=
-  let '(doc, source) := get_docstring c o in
+Definition get_docstring (c : config) (o : oid) : option text * option oid :=
+  get_docstring_from c (o :: inherits c o).
+
+(* ---- ensure_parsed_docstring(obj) -> source | None ;  ds = model.get_docstring(obj) *)
+Definition ensure_from (O : oracles) (c : config) (st : state) (o : oid) (ds : option text * option oid)
+  : option oid * state :=
+  let '(doc, source) := ds in
   let parsed_doc := pdoc st o in
   let source :=
     match source, parsed_doc with
@@ -207,12 +221,15 @@ Definition ensure_parsed_docstring (O : oracles) (c : config) (st : state) (o : 
     | None, Some d, Some src =>
       let '(pd, st') := parse_docstring O c st o d src None SEC_DOCSTRING in
       set_pdoc st' o (Some pd)
-    | _, _, _ => st                       (* (None, Some d, None) is excluded by `assert source is not None` *)
+    | _, _, _ => st                       (* (None, Some d, None) cannot happen: get_docstring returns a source with every doc *)
     end in
   match pdoc st1 o with
   | Some _ => (source, st1)
   | None => (None, st1)
   end.
+
+Definition ensure_parsed_docstring (O : oracles) (c : config) (st : state) (o : oid) : option oid * state :=
+  ensure_from O c st o (get_docstring c o).
 
 (* ---- ParsedDocstring.to_stan for the three kinds of parsed docstring *)
 Definition to_stan_p (O : oracles) (pd : parsed) : option stan :=
@@ -308,7 +325,7 @@ Definition format_summary (O : oracles) (c : config) (st : state) (o : oid) : st
   let src := match source with Some s => s | None => o end in
   safe_to_stan O c st1 pd src FB_summary false SEC_DOCSTRING.
 
-(* ---- ParsedDocstring.get_toc(depth) *)
+(* ---- ParsedDocstring.get_toc(depth): `except Exception: return None` around to_node() (since ef2e650) *)
 Definition get_toc (O : oracles) (pd : parsed) : outcome (option parsed) :=
   match pd with
   | PPlain _ => Ok None                  (* paragraphs only: build_table_of_content finds no section *)
@@ -316,10 +333,17 @@ Definition get_toc (O : oracles) (pd : parsed) : outcome (option parsed) :=
   | PMark p =>
     match toc_of O p with
     | TocNotImpl => Ok None
-    | TocRaise => Raised                 (* `except NotImplementedError` does not catch it *)
+    | TocRaise => Ok None                (* any other failure of to_node: return None as well *)
     | TocEmpty => Ok None
     | TocSome t => Ok (Some (PMark t))
     end
+  end.
+
+(* get_toc before ef2e650: `except NotImplementedError` only (kept for the _old_refuted witness) *)
+Definition get_toc_old (O : oracles) (pd : parsed) : outcome (option parsed) :=
+  match pd with
+  | PMark p => match toc_of O p with TocRaise => Raised | _ => get_toc O pd end
+  | _ => get_toc O pd
   end.
 
 (* ---- format_toc(obj) *)
@@ -382,11 +406,12 @@ Definition epytext_presult (errors : list (N * bool)) (p : N) : presult :=
   | inr p' => PR_ok p' (map fst errors)
   end.
 
-(* ---- ParsedEpytextDocstring.to_node():
+(* ---- ParsedEpytextDocstring.to_node() (since ef2e650):
         if self._document is not None: return self._document
-        self._document = new_document('epytext')                 # cached BEFORE the conversion
+        self._document = new_document('epytext')
         if self._tree is not None:
-            node, = self._to_node(self._tree)                     # may raise (AssertionError ...)
+            try: node, = self._to_node(self._tree)                # may raise (AssertionError ...)
+            except Exception: self._document = None; raise        # nothing is cached when the conversion fails
             self._document = set_node_attributes(self._document, children=node.children)
         return self._document
    `conv` is the oracle for self._to_node(self._tree); the state is self._document. *)
@@ -400,16 +425,23 @@ Definition epytext_to_node (has_tree : bool) (conv : convres) (document : option
     if has_tree then
       match conv with
       | ConvOk d => (Ok d, Some d)
-      | ConvRaise => (Raised, Some EMPTY_DOCUMENT)
+      | ConvRaise => (Raised, None)
       end
     else (Ok EMPTY_DOCUMENT, Some EMPTY_DOCUMENT)
+  end.
+
+(* to_node before ef2e650: the empty document stayed cached when the conversion raised (kept for the _old_refuted witness) *)
+Definition epytext_to_node_old (has_tree : bool) (conv : convres) (document : option N) : outcome N * option N :=
+  match document, has_tree, conv with
+  | None, true, ConvRaise => (Raised, Some EMPTY_DOCUMENT)
+  | _, _, _ => epytext_to_node has_tree conv document
   end.
 
 (* ================================================================== wire codec ===== *)
 (* input  := ( 0 cfg ops ) | ( 1 flags ) | ( 2 has_tree conv ncalls )   conv: () raises | (d)
                                                       output of mode 2: list of (0 d) returned d | (1) raised
    cfg    := ( sysfmt pt toc objs pdocs parsers ptypes plainsums )
-     objs      := list of ( oid parent? modfmt? doc? )                 x? = () | (x)
+     objs      := list of ( oid parent? modfmt? doc? preset? inherits )   x? = () | (x) ; inherits: list of oid
      pdocs     := list of ( pid to_stan fields varfields summ toc )
                     to_stan: () raises | (sid) ;  fields: list of pid ;  varfields: list of ( oid pid )
                     summ: (0) raises | (1) none | (2 sid) ;  toc: (0) not implemented | (1) raises | (2) empty | (3 tid)
@@ -493,7 +525,8 @@ Definition dec_config (cfg : sexp) : config :=
      toc_enabled := to_bool (nth_s 2 cfg);
      docstring := fun o => match row o with None => None | Some r => to_option to_text (nth_s 3 r) end;
      parent := fun o => match row o with None => None | Some r => to_option to_N (nth_s 1 r) end;
-     mod_fmt := fun o => match row o with None => None | Some r => to_option to_N (nth_s 2 r) end |}.
+     mod_fmt := fun o => match row o with None => None | Some r => to_option to_N (nth_s 2 r) end;
+     inherits := fun o => match row o with None => [] | Some r => map to_N (to_list (nth_s 5 r)) end |}.
 
 Definition init_state (cfg : sexp) : state :=
   (* presets: objs rows may carry a 5th item ( pid ) = parsed_docstring already set (by the parent's extract_fields) *)
